@@ -667,8 +667,16 @@ impl Oracle for HeapOracle {
                     return viol(prop, "dealloc_layout_mismatch", format!("a block allocated with size {} align {} was released with size {} align {}", asz, aal, dsz, dal), *call);
                 }
             }
-            Rec::Teardown { live, mismatches } => {
+            Rec::Teardown { live, live_blocks, zero_size, mismatches } => {
                 self.checked += 1;
+                if *zero_size > 0 {
+                    return viol(prop, "zero_size_allocation", format!("{} blocks of size zero were requested from the allocator by library code (GlobalAlloc::alloc requires a non-zero size)", zero_size), 0);
+                }
+                for (i, b) in live_blocks.iter().enumerate() {
+                    if *b != 0 && live[i] == 0 {
+                        return viol(prop, "leak_after_teardown", format!("{} blocks (0 bytes) allocated by endpoint {} are still live after every endpoint was dropped", b, i), 0);
+                    }
+                }
                 if *mismatches > 0 {
                     let (asz, aal, dsz, dal) = crate::alloc::last_mismatch();
                     crate::alloc::reset_mismatches();
